@@ -340,13 +340,18 @@ func (u *User) fire(ev *UserEvent) {
 		}
 		ro.Status.GetSubStatus().NextStepIndex = int32(ev.Arg)
 		_ = u.h.Status().Update(u.ctx, ro)
-	case "edit-plan":
+	case "edit-plan", "edit-plan-current":
 		ro := u.getRollout()
 		if ro == nil {
 			return
 		}
 		steps := ro.Spec.Strategy.GetSteps()
 		j := ev.Arg % len(steps)
+		if ev.Kind == "edit-plan-current" && ro.Status.GetSubStatus() != nil {
+			if c := int(ro.Status.GetSubStatus().CurrentStepIndex) - 1; c >= 0 && c < len(steps) {
+				j = c
+			}
+		}
 		st := &steps[j]
 		lo, hi := 1, 100
 		isPct := st.Replicas.Type == intstr.String
